@@ -93,8 +93,8 @@ CHECKS = {
             "changes the table, unbound aliases are never delivered (0x94 once earlier checks pass), aliases over the "
             "maximum are neither delivered nor recorded, two connections' tables never influence each other (any "
             "interleaving = the two separate runs), client-side routing depends only on the resolved topic. Tied to "
-            "real v5 servers/clients by alias sequences and scan P9. Partial: the server-side v5::Router cache is not "
-            "modelled.", "section 5, C17"),
+            "real v5 servers/clients (v5::Router and ClientRouter resources log their own index) by alias sequences and "
+            "scan P9. Partial: the router caches are not modelled, only observed.", "section 5, C17"),
     "C04": ("Coq theorem over all well-formed histories and every wrapping base value: what the response queue has "
             "written is exactly the responses of the longest completed prefix of requests in arrival order (none "
             "lost, none duplicated, none out of order); after a handler error still a prefix. The model of "
@@ -142,19 +142,23 @@ CHECKS = {
 
 
 EXTRA = {
-    "C04": " Connection level: real v3/v5 servers, the responses seen by the peer are in request order (scan P16).",
+    "C04": " Connection level: real v3/v5 servers, the responses seen by the peer are in request order (scan P16), also "
+           "when the requests arrive in one read (burst engines) and while the outbound side is busy (sink engines, "
+           "inbound PUBLISH, clause 41).",
     "C05": " The origin of the limit (min of configured/overridden max_send and the peer's Receive Maximum) is checked on "
            "real handshakes (engine hs, credit probes).",
     "C06": " A PUBLISH that cannot be encoded reserves nothing (C06_failed_publish_reserves_nothing, task kind 8).",
     "C08": " At sink level (Props/C08sink.v): in every reachable state the sink's and the codec's view of the owed "
            "payload agree, no packet is written while a payload is owed, a send that fails writes nothing and "
            "registers nothing, chunks stay within the declared size.",
-    "C14": " Every reachable receipt has its channel under the executable 'PUBCOMP only after our PUBREL' predicate "
+    "C14": " An id stays owned until PUBCOMP (clause 63 on the wire log). Every reachable receipt has its channel under the executable 'PUBCOMP only after our PUBREL' predicate "
            "(C14_receipt_has_channel), so the release theorems need no extra hypothesis.",
     "C07": " Payload readers at teardown: engines plstop3/plstop5 with Model/PlStop.v and Props/C07pl.v (a reader "
            "never finishes Ok with fewer bytes than announced; after the end it fails within buffered+1 polls)."
-           " Pending sends at teardown: closing schedules on the real sinks (clause 71); a failing handler must end the "
-           "connection without waiting for another event (clause 8).",
+           " Pending sends at teardown: closing schedules on the real sinks (clause 71), including a close and a poll in "
+           "ONE turn (operation 18) and a send owned by the executor (operation 19); Props/C07stop.v: once the queues "
+           "have been cleared no send is registered and nobody is parked, also while a graceful close is in progress. "
+           "A failing handler must end the connection without waiting for another event (clause 8).",
     "C10": " The glue to the in-flight limiter (impl SizedRequest for Decoded) is modelled (Model/Sized.v, engines "
            "sized3/sized5): a PUBLISH with an incomplete payload is flagged whatever piece came with the header.",
     "C12": " Whole servers when several frames arrive in ONE read: engines inb3b/inb5b (Model/InboundBurst.v, "
@@ -164,10 +168,15 @@ EXTRA = {
     "C13": " The ControlService wrapper (engines ctlwrap3/ctlwrap5, Model/CtlWrap.v, Props/C13ctl.v): the flag is the "
            "last notification ISSUED, whatever the order in which the application's control calls complete."
            " Where the flag comes from: io.rs announces back-pressure off once the buffer is flushed and the service is "
-           "ready (iostate back-pressure parts, clause 133); streamed chunk sends resume (clause 132).",
+           "ready (iostate back-pressure parts, clause 133); streamed chunk sends resume (clause 132) and a chunk send "
+           "started without back-pressure never waits (clause 135); senders still pending after the connection ended "
+           "(clause 71, with an executor-owned task).",
     "C15": " Busy endpoints: the DISCONNECT the sink layer writes for a rule-breaking acknowledgement carries 0x83 "
-           "(wire log of Model/Sink.v carries the reason, clause 151); client role covered by scan P12.",
-    "C16": " Busy endpoints (outstanding sends x every acknowledgement type) and the limiter's view of streamed "
+           "(wire log of Model/Sink.v carries the reason, clause 151); client role covered by scan P12. Limits set up "
+           "by the handshake: a PUBLISH over the inbound packet size / maximum QoS is refused with 0x95 / 0x9B "
+           "(handshake engine, clause 10).",
+    "C16": " Busy endpoints (outstanding sends x every acknowledgement type, every (request kind, acknowledgement "
+           "kind) pair with the same id), packets arriving in one read (burst engines) and the limiter's view of streamed "
            "publishes (a mis-flagged PUBLISH stalls the connection) are part of the run.",
     "C18": " Where the validator is used: SUBSCRIBE / UNSUBSCRIBE with mixed-validity filter lists on real servers "
            "(scan P15).",
